@@ -147,7 +147,10 @@ def work(task):
 
 
 def line_key(rec):
-    return json.dumps(judged_line(rec), sort_keys=True, separators=(",", ":"))
+    """Identity of a record for TLC: everything a clause looks at.  The chunking is
+    carried along (that of the first example) but no clause depends on it, so
+    records that differ only in it are judged once."""
+    return json.dumps(dict(judged_line(rec), chunk=""), sort_keys=True, separators=(",", ":"))
 
 
 def work_shard(job):
@@ -440,7 +443,7 @@ class Judge:
 
     def run(self, name, detail_of):
         keys = sorted(self.lines)
-        lines = [json.loads(k) for k in keys]
+        lines = [judged_line(self.lines[k][2]) for k in keys]
         fails = trace.validate(self.check, "TraceH3Conn", lines, constants=TRACE_CONSTANTS, name=name)
         for i, clause in fails:
             n, ref, rec = self.lines[keys[i]]
